@@ -2,7 +2,9 @@ use hsim::supervisor::CheckDef;
 
 pub mod c16;
 pub mod c17;
+pub mod upd_model;
+pub mod update;
 
 pub fn all() -> Vec<CheckDef> {
-    vec![c16::def(), c17::def()]
+    vec![update::def_c12(), c16::def(), c17::def()]
 }
